@@ -109,8 +109,12 @@ func HarnessC08XRD() {
 		x.SetAPIVersion("example.org/v1")
 		x.SetKind("XThing")
 		x.SetName("x" + string(rune('0'+i)))
-		if zz.Bool("instance" + string(rune('0'+i)) + ".hasFinalizer") {
+		switch zz.Choose("instance"+string(rune('0'+i))+".state", 3) { // no finalizer, held by its finalizer, already terminating (held by its finalizer)
+		case 1:
 			x.SetFinalizers([]string{"composite.apiextensions.crossplane.io"})
+		case 2:
+			x.SetFinalizers([]string{"composite.apiextensions.crossplane.io"})
+			x.SetDeletionTimestamp(&now)
 		}
 		s.Put(x)
 	}
